@@ -58,6 +58,9 @@ def Env.real (fp : FeeParams) (coinsPerByte : Int) (fake : Bytes) : Env :=
       if Output.negative o then none else some (minLovelace coinsPerByte o),
     fakeAddr := fake }
 
+/-- `max_fee = max_tx_fee(context) if include_max_fee else 0` -/
+def feeOf (env : Env) (includeFee : Bool) : Option Int := if includeFee then env.maxFee else some 0
+
 /-- `total_requested = Value(max_fee); for o in outputs: total_requested += o.amount` -/
 def requestSum (fee : Int) (outputs : List Output) : Value :=
   outputs.foldl (fun acc o => Value.add acc o.amount) ⟨fee, []⟩
@@ -124,7 +127,7 @@ def lfBase (fee : Int) (utxos : List UTxO) (outputs : List Output) (limit : Opti
 /-- `LargestFirstSelector.select` -/
 def lfSelect (env : Env) (utxos : List UTxO) (outputs : List Output) (limit : Option Int)
     (includeFee respectMin : Bool) : Except SelErr (List UTxO × Value) :=
-  match (if includeFee then env.maxFee else some 0) with
+  match feeOf env includeFee with
   | none => .error .crash
   | some fee =>
     let total := requestSum fee outputs
@@ -310,7 +313,7 @@ def riBase (fee : Int) (utxos : List UTxO) (outputs : List Output) (limit : Opti
 /-- `RandomImproveMultiAsset.select` -/
 def riSelect (env : Env) (utxos : List UTxO) (outputs : List Output) (limit : Option Int)
     (includeFee respectMin : Bool) (stream : List Nat) : Except SelErr (List UTxO × Value) :=
-  match (if includeFee then env.maxFee else some 0) with
+  match feeOf env includeFee with
   | none => .error .crash
   | some fee =>
     let total := requestSum fee outputs
